@@ -18,6 +18,7 @@ pub struct ExSeekFrom(std::io::SeekFrom);
 
 #[verifier::external_body]
 struct SError { _p: u8 }
+//@ stubs sst/src/lib.rs -> SError
 #[verifier::external_body]
 struct IoError { _p: u8 }
 #[verifier::external_body]
